@@ -136,16 +136,48 @@ class C02(RecorderProp):
             'frozenset x run-original x substitute incl. falsy values and callables x output default / fail flag, recording '
             'enabled and disabled during play, two replays) with answers expected from the documentation; then random pairs '
             '(recorded program, different replayed program) with random policies, 1-3 replays per recording, on memory / file / '
-            'S3 cassettes; spy cassette log and serialized store compared before/after every play; non-trivial = a replay that '
+            'S3 cassettes; + (not modelled) inputs whose data handler itself asks an intercepted input while recording and restoring: no body runs in the replay; spy cassette log and serialized store compared before/after every play; non-trivial = a replay that '
             'answered at least one interception; distinct = distinct canonical case')
     OPTS = dict(ALL_OPTS, policies=True, same_script=0.25, play_ratio=0.65, runs=(2, 6), interrupts=True,
                 cassettes=['memory', 'memory', 'file', 's3'], foreign=True)
     N = {'quick': 2500, 'thorough': 30000}
 
+    EFFECTS = {'quick': 60, 'thorough': 600}
+
     def generate(self, rng, tier):
-        return table_cases() + [self.gen_one(rng, tier) for _ in range(self.N[tier])]
+        from harness import effects_cases as E
+        # + (not modelled) inputs whose data handler itself asks an intercepted input, while recording and while restoring
+        return table_cases() + [self.gen_one(rng, tier) for _ in range(self.N[tier])] + \
+            [E.gen_effects_case(rng) for _ in range(self.EFFECTS[tier])]
+
+    def run_impl(self, case):
+        if case.get('kind') == 'effects':
+            from harness import effects_cases as E
+            return E.run_effects_case(case)
+        return super(C02, self).run_impl(case)
+
+    def sample_repr(self, case):
+        return case if case.get('kind') == 'effects' else super(C02, self).sample_repr(case)
+
+    def features(self, case, impl):
+        if case.get('kind') == 'effects':
+            return ['data-handler-asks-an-intercepted-input' if case['handler_calls_input'] else 'data-handler-plain']
+        return super(C02, self).features(case, impl)
+
+    def shrink(self, case):
+        return [] if case.get('kind') == 'effects' else super(C02, self).shrink(case)
 
     def oracle(self, case, impl):
+        if case.get('kind') == 'effects':
+            if not impl.get('saved'):
+                return ['an operation whose input goes through a data handler was not saved (%r)' % (impl['rec_end'],)]
+            fails = []
+            if impl['bodies_run_in_replay']:
+                fails.append('replay of an operation whose data handler asks an intercepted input: the bodies %r ran during the replay '
+                             '(every interception is answered from the recording)' % (impl['bodies_run_in_replay'],))
+            if impl['replay'][0] != 'played':
+                fails.append('replay of an operation whose data handler asks an intercepted input ended %r' % (impl['replay'],))
+            return fails
         fails = []
         for i, (run, r) in enumerate(zip(case['runs'], impl)):
             if run['run'] != 'play':
@@ -199,6 +231,8 @@ class C02(RecorderProp):
         return case
 
     def nontrivial(self, case, impl):
+        if case.get('kind') == 'effects':
+            return True
         return any(run['run'] == 'play' and r['_outcomes'] for run, r in zip(case['runs'], impl))
 
 
